@@ -547,6 +547,78 @@ fn test_tail_quantiles(which: Which, seed: u64, skipped: &mut u64) -> (u64, Opti
     (evals, None)
 }
 
+/// Wedge-conditional law: the layer is forced, the mantissa is forced into the wedge part
+/// of the layer, the acceptance uniform is left to the stream.  Given acceptance (exactly
+/// two words consumed) |x| has density proportional to pdf(x) - f[i] on (x[i+1], x[i]),
+/// whose CDF is closed-form.  The per-layer law test sees a wedge through the whole layer
+/// (the wedge is 1-10 % of it): a wedge whose *shape* is wrong but whose mass is right moves
+/// the layer's CDF by less than that test resolves.  Returns (accepted samples, D, width).
+fn test_wedge_law(which: Which, layer: u8, n: u64, seed: u64) -> Result<(u64, f64, f64, f64), String> {
+    let (xt, ft, _) = which.tables();
+    let i = layer as usize;
+    let (xi, xi1) = (xt[i], xt[i + 1]);
+    let norm = which.area0(xi) - which.area0(xi1) - ft[i] * (xi - xi1);
+    let g = |x: f64| (which.area0(x) - which.area0(xi1) - ft[i] * (x - xi1)) / norm;
+    const K: usize = 16;
+    let mut counts = [0u64; K + 1];
+    let mut sched = SimRng::new(mix(&[seed, 0x3ED6E, layer as u64]));
+    let mut rng = SimRng::new(mix(&[seed, 0x3ED6F, layer as u64]));
+    let lo = xi1 / xi;
+    let two52 = (1u64 << 52) as f64;
+    let mut acc = 0u64;
+    for k in 0..n {
+        if k & 0x3fff == 0 {
+            mark_call(k);
+        }
+        let t = lo + (1.0 - lo) * u01(&mut sched);
+        let mant = match which {
+            Which::Norm => {
+                let mag = (((1.0 + t) * 0.5 * two52) as u64).min((1u64 << 52) - 1);
+                if below(&mut sched, 2) == 0 {
+                    mag
+                } else {
+                    (1u64 << 52) - mag
+                }
+            }
+            Which::Exp => ((t * two52) as u64).min((1u64 << 52) - 1),
+        };
+        let pos = rng.pos;
+        rng.set_single_fault(pos, Inject::Zig { layer, mant });
+        rng.budget = rng.pos + 100_000;
+        let x = match guarded(|| sample_one(which, &mut rng)) {
+            Caught::Ok(x) => x,
+            Caught::Panic { msg, loc } => return Err(format!("panic: {msg} @ {loc}")),
+            Caught::Budget(_) => return Err("word budget exceeded".into()),
+        };
+        if rng.pos - pos != 2 {
+            continue; // rejected (or not a wedge candidate after rounding)
+        }
+        let ax = x.abs();
+        if !(ax >= xi1 && ax <= xi) {
+            continue;
+        }
+        acc += 1;
+        let cell = (((ax - xi1) / (xi - xi1)) * K as f64) as usize;
+        counts[cell.min(K)] += 1;
+    }
+    if acc == 0 {
+        return Ok((0, 0.0, 1.0, 0.0));
+    }
+    let mut d: f64 = 0.0;
+    let mut at = 0.0;
+    let mut cum = 0u64;
+    for c in 0..K {
+        cum += counts[c];
+        let e = xi1 + (xi - xi1) * (c + 1) as f64 / K as f64;
+        let dd = (cum as f64 / acc as f64 - g(e)).abs();
+        if dd > d {
+            d = dd;
+            at = e;
+        }
+    }
+    Ok((acc, d, stats::dkw_width(acc as f64, stats::ALPHA_CONFIRM / 256.0), at))
+}
+
 /// Restart equivalence of the rejection loop: a ziggurat candidate that is rejected in its
 /// wedge (2 words) must leave no trace -- the call has to continue exactly like a fresh call
 /// on the rest of the stream.  Stream A = [wedge candidate of a random layer, uniform 0
@@ -770,6 +842,42 @@ impl Engine for ZigEngine {
                             res.samples.push(json!({"which": which.name(), "forced": "layer 0, tail mantissa", "N": nt, "D": o.d, "dkw_width": o.width}));
                         }
                     }
+                    // wedge-conditional law of every layer
+                    {
+                        let per = if ctx.tier == Tier::Thorough { 400_000 } else { 40_000 };
+                        let mut worst: f64 = 0.0;
+                        for layer in 1..=255u8 {
+                            match test_wedge_law(which, layer, per, seed) {
+                                Err(e) => {
+                                    res.violations.push(mk_violation("panic", format!("{} wedge of layer {layer}: {e}", which.name()), which, json!({"kind": "zig-wedge", "which": which.name(), "layer": layer, "n": per, "seed": seed})));
+                                    break;
+                                }
+                                Ok((acc, dd, width, at)) => {
+                                    res.evaluations += per;
+                                    res.inj("F3-forced-wedge-mantissa", per);
+                                    res.fired("F3-forced-wedge-mantissa", acc);
+                                    worst = worst.max(dd / width);
+                                    d.add(acc);
+                                    if dd > width {
+                                        // confirm on an independent stream with 4x the calls
+                                        if let Ok((acc2, d2, w2, at2)) = test_wedge_law(which, layer, 4 * per, mix(&[seed, 0xC0F1])) {
+                                            if d2 > w2 {
+                                                res.violations.push(mk_violation(
+                                                    "law(dkw,wedge)",
+                                                    format!("{}: wedge of layer {layer}: given acceptance, |x| deviates from the density pdf(x) - f[{layer}] on ({:.6}, {:.6}): D = {dd:.3e} at {at:.6} (width {width:.3e}, {acc} accepted); confirmed D = {d2:.3e} at {at2:.6} (width {w2:.3e}, {acc2} accepted)", which.name(), which.tables().0[layer as usize + 1], which.tables().0[layer as usize]),
+                                                    which,
+                                                    json!({"kind": "zig-wedge", "which": which.name(), "layer": layer, "n": per, "seed": seed}),
+                                                ));
+                                                break;
+                                            }
+                                        }
+                                    }
+                                }
+                            }
+                        }
+                        res.stat_max("wedge:largest_D_over_DKW_width", worst);
+                        res.keys.push(hash_key(&[which.name(), "wedge-law"]));
+                    }
                     {
                         let nr = n / 2;
                         let (runs, rej, bad) = test_restart_equivalence(which, nr, seed);
@@ -841,6 +949,18 @@ impl Engine for ZigEngine {
                 let (o, v) = test_layer(which, i, n, seed)?;
                 println!("replay: {} forced layer {i}: D = {:.3e}, width {:.3e}", which.name(), o.d, o.width);
                 Ok(v.map(|m| vec![mk_violation("law(dkw,layer)", m, which, case.clone())]).unwrap_or_default())
+            }
+            "zig-wedge" => {
+                let layer = case["layer"].as_u64().unwrap_or(1) as u8;
+                let (acc, dd, width, at) = test_wedge_law(which, layer, n, seed)?;
+                println!("replay: {} wedge of layer {layer}: {acc} accepted, D = {dd:.3e} at {at:.6}, width {width:.3e}", which.name());
+                if dd > width {
+                    let (acc2, d2, w2, _) = test_wedge_law(which, layer, 4 * n, mix(&[seed, 0xC0F1]))?;
+                    if d2 > w2 {
+                        return Ok(vec![mk_violation("law(dkw,wedge)", format!("{}: wedge of layer {layer}: D = {dd:.3e} (width {width:.3e}); confirmed {d2:.3e} (width {w2:.3e}, {acc2} accepted)", which.name()), which, case.clone())]);
+                    }
+                }
+                Ok(vec![])
             }
             "zig-restart" => {
                 let (_, rej, bad) = test_restart_equivalence(which, n, seed);
